@@ -35,6 +35,40 @@ def sep_cpt(rng, r, q, zeros=True):
     return [[cols[j][i] for j in range(q)] for i in range(r)]
 
 
+TINY = [1e-12, 1e-9, 1e-6]
+
+
+def tiny_entries(rng, table):
+    """Put 1-2 entries of magnitude 1e-12 .. 1e-6 into some columns (columns still sum to exactly 1)."""
+    r, q = len(table), len(table[0])
+    if r < 2:
+        return table
+    for j in range(q):
+        if rng.random() < 0.4:
+            col = [table[i][j] for i in range(r)]
+            big = max(range(r), key=lambda t: col[t])
+            for i in rng.sample([t for t in range(r) if t != big], rng.randint(1, min(2, r - 1))):
+                col[i] = rng.choice(TINY)
+            col[big] = 1.0 - sum(c for t, c in enumerate(col) if t != big)
+            if col[big] > 0:
+                for i in range(r):
+                    table[i][j] = col[i]
+    return table
+
+
+def odd_names(rng, bn):
+    """multi-digit / negative integer names, and the empty string as a state name"""
+    for v in bn["nodes"]:
+        st = bn["states"][v]
+        if all(isinstance(x, int) for x in st) and st != list(range(len(st))) and rng.random() < 0.35:
+            off = rng.choice([10, 100, -3, 2 ** 40])
+            bn["states"][v] = [x + off for x in st]
+        elif all(isinstance(x, str) for x in st) and rng.random() < 0.15:
+            st = list(st)
+            st[rng.randrange(len(st))] = ""
+            bn["states"][v] = st
+
+
 def clamp_spec(bn, clamp):
     """Spec in which every node of `clamp` ({node: number}) is a parent-less point mass."""
     cpds = dict(bn["cpds"])
@@ -108,7 +142,7 @@ def sim_effective(bn, var):
 
 
 def rand_vec(rng, k):
-    vec = [rng.choice([0.0, 0.1, 0.3, 0.5, 0.8, 1.0]) for _ in range(k)]
+    vec = [rng.choice([0.0, 0.1, 0.3, 0.5, 0.8, 1.0, 1e-6, 1 - 1e-9]) for _ in range(k)]
     if max(vec) == 0:
         vec[rng.randrange(k)] = 0.5
     return vec
@@ -137,14 +171,15 @@ def gen_sim_variant(rng, bn, nodes, J, tier):
                 vev.append({"var": v, "vec": rand_vec(rng, card[v])})
             else:
                 vint.append({"var": v, "vec": rand_vec(rng, card[v])})
-        var.update(do=do, evidence=evid, vev=vev, vint=vint)
+        var.update(do=do, evidence=evid, vev=vev, vint=vint, empty=rng.choice(["none", "empty"]))
         if rng.random() < 0.12 and pool:
             var["partial"] = gen_partial(rng, bn, n, exclude=[v for v in nodes if v not in pool])
         else:
             var["partial"] = None
         if rng.random() < 0.35:
             cols = [v for v in nodes if rng.random() < 0.5]
-            var["missing"] = {"prob": rng.choice([0.1, 0.3, 0.6]), "columns": cols or None}
+            var["missing"] = {"prob": rng.choice([0.1, 0.3, 0.6, 1e-9, 1 - 1e-9, 0.5]),
+                              "columns": rng.choice([cols or None, cols or None, cols or None, None, []])}
         else:
             var["missing"] = None
         # acceptance probability under the effective spec (bounds the rejection cost)
@@ -168,7 +203,7 @@ def gen_sim_variant(rng, bn, nodes, J, tier):
             return var
         n = min(n, 17)
     return {"n": n, "seed": _seed(rng), "include_latents": False, "do": {}, "evidence": {}, "vev": [],
-            "vint": [], "partial": None, "missing": None}
+            "vint": [], "partial": None, "missing": None, "empty": rng.choice(["none", "empty"])}
 
 
 def gen_bn_case(rng, tier):
@@ -181,23 +216,31 @@ def gen_bn_case(rng, tier):
         for p in pa:
             q *= bn["card"][p]
         bn["cpds"][v]["table"] = sep_cpt(rng, bn["card"][v], q)
+    tiny = rng.random() < 0.3
+    if tiny:
+        for v in bn["nodes"]:
+            tiny_entries(rng, bn["cpds"][v]["table"])
+    odd_names(rng, bn)
     nodes, J = oracle.joint_table(bn)
     card = bn["card"]
     sizes = [1, 2, 17, 17, 1000] if not thorough else [1, 2, 17, 1000, 3000]
-    spec = {"type": "bn", "bn": bn, "build_seed": rng.randrange(10 ** 6)}
+    spec = {"type": "bn", "bn": bn, "build_seed": rng.randrange(10 ** 6), "tiny": tiny}
     # forward
     fsize = rng.choice(sizes)
     spec["fwd"] = {"size": fsize, "seed": _seed(rng),
                    "partial": gen_partial(rng, bn, min(fsize, 40)) if rng.random() < 0.35 else None}
     if spec["fwd"]["partial"]:
         spec["fwd"]["size"] = len(spec["fwd"]["partial"]["rows"])
+    elif rng.random() < 0.06:           # a partial frame with rows but no columns: nothing is given
+        spec["fwd"]["partial"] = {"cols": [], "rows": [[] for _ in range(fsize)]}
     # rejection
-    ev = pick_evidence(rng, nodes, J, card, 2, 0.02, kmin=0 if rng.random() < 0.1 else 1)
+    ev = pick_evidence(rng, nodes, J, card, 2, 0.02, kmin=0 if rng.random() < 0.15 else 1)
     pe = prob_of(nodes, J, ev)
     rsize = rng.choice([1, 2, 17, 200])
     if rsize / pe > 8000:
         rsize = 17 if 17 / pe <= 8000 else 2
-    rej = {"evidence": ev, "size": rsize, "seed": _seed(rng), "p_e": pe, "partial": None}
+    rej = {"evidence": ev, "size": rsize, "seed": _seed(rng), "p_e": pe, "partial": None,
+           "ev_none": rng.random() < 0.5}        # when the evidence is empty: spelled None (documented) or []
     if ev and rng.random() < 0.2:
         part = gen_partial(rng, bn, min(rsize, 30), exclude=list(ev))
         if part:
@@ -211,14 +254,36 @@ def gen_bn_case(rng, tier):
     spec["rej"] = rej
     # likelihood weighting
     spec["lw"] = {"evidence": pick_evidence(rng, nodes, J, card, 3, 1e-9), "size": rng.choice(sizes),
-                  "seed": _seed(rng)}
+                  "seed": _seed(rng), "ev_none": rng.random() < 0.5}
     # Gibbs
     pos = [idx for idx in itertools.product(*[range(card[v]) for v in nodes]) if J[idx] > 0]
     start = rng.choice(pos)
     spec["gibbs"] = {"start": dict(zip(nodes, start)), "size": rng.choice([1, 2, 17, 60]),
-                     "seed": _seed(rng), "random_start": bool(np.all(np.asarray(J) > 0))}
+                     "seed": _seed(rng), "random_start": bool(np.all(np.asarray(J) > 0)),
+                     "reuse": [[rng.choice([1, 2, 9]), rng.random() < 0.5, _seed(rng)]
+                               for _ in range(rng.randint(1, 2))] if rng.random() < 0.5 else None}
     # simulate variants
     spec["sim"] = [gen_sim_variant(rng, bn, nodes, J, tier) for _ in range(2)]
+    spec["sim_reuse"] = rng.random() < 0.5        # one model object (and one set of argument objects) for all calls
+    # one sampler object serving a sequence of different calls
+    if rng.random() < 0.6:
+        steps = []
+        for _ in range(rng.randint(3, 5)):
+            kind = rng.choice(["fwd", "rej", "lw", "rej", "lw"])
+            sz = rng.choice([1, 1, 2, 17, 60])
+            if kind == "fwd":
+                part = gen_partial(rng, bn, min(sz, 20)) if rng.random() < 0.3 else None
+                steps.append({"kind": kind, "size": len(part["rows"]) if part else sz, "seed": _seed(rng), "partial": part})
+            elif kind == "rej":
+                e2 = pick_evidence(rng, nodes, J, card, 2, 0.05, kmin=0 if rng.random() < 0.25 else 1)
+                steps.append({"kind": kind, "evidence": e2, "size": sz if sz / prob_of(nodes, J, e2) <= 2000 else 2,
+                              "seed": _seed(rng), "partial": None, "ev_none": rng.random() < 0.5})
+            else:
+                steps.append({"kind": kind, "evidence": pick_evidence(rng, nodes, J, card, 3, 1e-9), "size": sz,
+                              "seed": _seed(rng), "ev_none": rng.random() < 0.5})
+        spec["reuse"] = {"steps": steps, "partial": None}
+    else:
+        spec["reuse"] = None
     # statistical guard
     spec["stat"] = {"seed": _seed(rng)} if rng.random() < 0.25 else None
     return spec
@@ -226,6 +291,10 @@ def gen_bn_case(rng, tier):
 
 def gen_mn_case(rng, tier):
     mn = gen.rand_mn_spec(rng, n_range=(2, 5), max_joint=256)
+    if rng.random() < 0.5:              # potentials far from O(1), mixed within one network
+        for f in mn["factors"]:
+            sc = 10.0 ** rng.choice([-12, -6, 0, 0, 4, 8])
+            f["values"] = [x * sc * (10.0 ** rng.choice([0, 0, 0, -6, 3])) for x in f["values"]]
     nodes, J = oracle.mn_joint(mn)
     card = mn["card"]
     pos = [idx for idx in itertools.product(*[range(card[v]) for v in nodes]) if J[idx] > 0]
@@ -238,4 +307,5 @@ def gen_mn_case(rng, tier):
     start = rng.choice(pos)
     return {"type": "mn", "mn": mn, "build_seed": rng.randrange(10 ** 6),
             "gibbs": {"start": dict(zip(nodes, start)), "size": rng.choice([1, 2, 17, 60]),
-                      "seed": _seed(rng)}}
+                      "seed": _seed(rng),
+                      "reuse": [[rng.choice([1, 2, 9]), True, _seed(rng)]] if rng.random() < 0.5 else None}}
